@@ -1,8 +1,12 @@
 (* Properties_C07.v — C07: results are independent of thread interleaving.  Statements only.
-   PARTIAL: the read half (objects delivered = file order for every interleaving) is not a theorem
-   yet; it rests on the FIFO theorems C15/C16 plus differential execution under perturbed schedules. *)
+   The read half is C07_read_determinate / C07_read_complete over the read-session model Lib/RPipe.v with an
+   arbitrary reader program (hypothesis: its relative seeks stay inside the stream, which holds for the
+   library's parser on well-formed files); that the parser thread touches the stream and the queue only
+   through read / seekg / dropOldData / write(obj) is the skeleton fact C07_worker_loops_as_modelled.
+   PARTIAL: the reader program is abstract — that the library's parser, run as such a program, yields
+   FileModel.obj_loop's objects is decided by the correspondence runs (plain and perturbed schedules). *)
 From Coq Require Import String List Bool ZArith Lia.
-From VB Require Import Base FileModel WPipe PipeSkel FileSkel SkelEq.
+From VB Require Import Base FileModel WPipe RPipe RDet PipeSkel FileSkel SkelEq.
 Import ListNotations.
 Local Open Scope Z_scope.
 
@@ -12,7 +16,7 @@ Local Open Scope Z_scope.
    was deleted exactly once in write order, and nothing is left behind *)
 Theorem C07_write_determinate : forall cap buf cs, 1 <= cs ->
   forall l s, WPipe.reach cap buf cs l s -> WPipe.finished s ->
-  out s = pieces (length (objs_bytes l)) cs (objs_bytes l) /\ deleted s = map o_id l /\ q s = [] /\ ubuf s = [].
+  out s = pieces (length (objs_bytes l)) cs (objs_bytes l) /\ deleted s = map o_id l /\ WPipe.q s = [] /\ ubuf s = [].
 Proof. intros cap buf cs H l s R F. eapply write_determinate; eauto. Qed.
 Print Assumptions C07_write_determinate.
 
@@ -23,3 +27,25 @@ Theorem C07_worker_loops_as_modelled :
   skel_compressedFileReadThread = w2_read_expected /\ skel_compressedFileWriteThread = w2_write_expected.
 Proof. exact worker_loops. Qed.
 Print Assumptions C07_worker_loops_as_modelled.
+
+(* read sessions: in EVERY reachable state of EVERY interleaving — any queue capacity, any buffer size, any
+   cut of the stream into containers, any number k of read() calls — the objects read() has returned are a
+   prefix of the schedule-free meaning of the reader over the whole stream, in order, each once; and once
+   read() has returned nullptr they are all of it (end-of-file only after the last object) *)
+Theorem C07_read_determinate : forall cap buf c p k s, wf_prog (concat c) p 0 -> RPipe.reach cap buf c p k s ->
+  (exists rest, seq (concat c) p 0 = somes (got s) ++ rest) /\ (In None (got s) -> somes (got s) = seq (concat c) p 0).
+Proof. intros cap buf c p k s W R. eapply read_determinate; eauto. Qed.
+Print Assumptions C07_read_determinate.
+
+(* a finished session that called read() more often than there are objects received exactly those objects, then nullptr *)
+Theorem C07_read_complete : forall cap buf c p k s, wf_prog (concat c) p 0 -> RPipe.reach cap buf c p k s ->
+  RPipe.a_pc s = RPipe.ADone -> (length (seq (concat c) p 0) < k)%nat ->
+  somes (got s) = seq (concat c) p 0 /\ In None (got s).
+Proof. intros cap buf c p k s W R D K. eapply read_complete; eauto. Qed.
+Print Assumptions C07_read_complete.
+
+(* non-vacuity: a parser-like reader over two objects cut across two containers *)
+Theorem C07_read_example :
+  wf_prog (concat ex_conts) (ex_parser 5) 0 /\ seq (concat ex_conts) (ex_parser 5) 0 = [7; 8] /\
+  let s := run_sched 1 80 (RPipe.init 2 ex_conts (ex_parser 5) 4) in RPipe.a_pc s = RPipe.ADone /\ got s = [Some 7; Some 8; None; None].
+Proof. split; [exact ex_wf|]. split; [exact ex_seq|exact ex_session]. Qed.
